@@ -211,11 +211,16 @@ def _raising(node):
 
 
 def _find_guards(mod, f, tokens):
+    """`if <test>: raise` or, equivalently, `if <X>: ... else: raise` read as the guard `not <X>`"""
     out = []
     for n in ast.walk(f.node):
         if isinstance(n, ast.If) and _raising(n.body):
             t = mod.code(n.test)
             if all(key_in(tok, t) for tok in tokens):
+                out.append(n)
+        elif isinstance(n, ast.If) and n.orelse and _raising(n.orelse) and not (len(n.orelse) == 1 and isinstance(n.orelse[0], ast.If)):
+            t = mod.code(n.test)
+            if any(all(key_in(tok, v) for tok in tokens) for v in ("not" + t, "not(" + t + ")")):
                 out.append(n)
     return out
 
